@@ -90,7 +90,7 @@ fn job_child(prop: &str, thorough: bool, k: usize, n: usize, resume: (i64, u64))
     // every state of the sweeps and of the malformed-input engine is a short operation on a small
     // input: one that does not come back is a hang (the fault engines have long single states)
     if !is_fault {
-        vcommon::child::set_watchdog(if prop == "C06" { 15 } else { 300 });
+        vcommon::child::set_watchdog(if prop == "C06" { 30 } else { 300 });
     }
     let items = if prop == "C06" {
         malformed::items(&entries, thorough)
